@@ -14,7 +14,7 @@ LEVEL = "exploration"
 ENGINE = "simsched"
 TIERS = {
     "quick": {"runs": 30000, "budget_s": 75, "chunk": 50},
-    "thorough": {"runs": 120000, "budget_s": 1500, "chunk": 32},
+    "thorough": {"runs": 1500000, "budget_s": 1500, "chunk": 200},
 }
 RULE = ("one evaluation = one seeded 4-D dataset (non-square scan 2-5 x 2-6, non-square detector "
         "3-9 x 3-9, strictly positive asymmetric patterns) and a history of 4-9 calls on ONE "
